@@ -38,6 +38,9 @@ func (ro *Roles) countHost() (fn *ssa.Function, list string) {
 				if fn.Signature.Recv() != nil {
 					idx = i - 1
 				}
+				if idx < 0 {
+					return fn, "recv" // a method of a named list type
+				}
 				return fn, fmt.Sprintf("arg%d", idx)
 			}
 		}
@@ -437,7 +440,7 @@ func (ro *Roles) countShape(r *Report, rule string) {
 				}
 			}
 		})
-		if strings.HasPrefix(list, "arg") {
+		if strings.HasPrefix(list, "arg") || list == "recv" {
 			P := ro.admitPipelineArg()
 			for _, ci := range findCalls(ro.Admit, func(_ string, c *ssa.CallCommon) bool { return c.StaticCallee() == fn }) {
 				okArg := false
